@@ -1025,9 +1025,11 @@ class AdditiveDistribution(_AbstractDistribution):
         # Automatically get dimensionality  from first distribution
         self.dimensions = list_of_distributions[0].dimensions
 
-        self.separate_distributions: _List[
-            _AbstractDistribution
-        ] = list_of_distributions
+        # A list of its own: add_distribution appends to it, which must not alter the
+        # caller's list or another object built from the same list
+        self.separate_distributions: _List[_AbstractDistribution] = list(
+            list_of_distributions
+        )
 
         # Assert that the passed distributions are of the right dimension
         for i_distribution, distribution in enumerate(self.separate_distributions):
